@@ -70,7 +70,7 @@ Proof.
   apply andb_true_iff in Hfr. destruct Hfr as [Hok Hni]. apply negb_true_iff in Hni.
   set (prog := SSeq lib body) in *. rewrite run_top in H. fold prog in H.
   destruct (A_all inp (tenv prog) (ad_s prog) n) as [_ [_ As]].
-  destruct (As true _ 1 _ prog _ c s Hok Hni (LocalEnv_init prog _ Hni) (SOK_init prog _ Hok) H) as [_ [_ [R _]]].
+  destruct (As true _ 1 _ prog _ c s Hok Hni (LocalEnv_init prog _ Hni) (fun _ => conj eq_refl (incl_refl _)) (SOK_init prog _ Hok) H) as [_ [_ [R _]]].
   destruct W_all as [_ [_ Ws]].
   destruct (Ws prog true ["inputs"] _ [] [] Hok Hni (Gok_inputs _ Hni) (fun _ => eq_refl) (or_introl eq_refl)) as [D' [E [_ A]]].
   exists (WN ["inputs"] [] D'). split; [exact E|].
